@@ -4,7 +4,9 @@
   reads/writes, atomic operations on `t` and mutex operations, an interleaving semantics
   `step : State → Tid → State` (executions = arbitrary schedules `List Nat`, any number of
   threads), happens-before bookkeeping (RWMutex release/acquire, release-store/acquire-load of
-  `t`) with a data-race detector, and the static access discipline `safe`.
+  `t`) with a data-race detector, and the static access discipline `safe`.  Besides the node's own
+  fields the pseudo field `c` stands for the memory behind `p` (children container, hash index, child
+  slots): the parser writes it under the write lock before assign, the reads follow it afterwards.
   Core Lean only.
 
   Programs are not written by hand: `progOf tbl fn` compiles the event list that
@@ -111,6 +113,8 @@ inductive Op
   | storeT     -- atomic.StoreInt64(&self.t, n.t)      (release; n.t is a parsed, non-raw type)
   | readT | readL | readP | readM     -- plain reads
   | writeL | writeP                   -- plain writes of the new generation (assign)
+  | readC                             -- plain read of memory reachable through p (container, child slots)
+  | writeC                            -- plain write of such memory (the parser building the children)
   | writeAll                          -- `*self = …` (plain write of t, l, p, m; m becomes nil)
   | acqW | acqR | relW | relR         -- m.Lock() / m.RLock() / m.Unlock() / m.RUnlock()
   | setLockVar                        -- `lock := <result of lock()/rlock()>` (thread-local)
@@ -131,9 +135,11 @@ def Prog.seqOps : List Op → Prog → Prog
   | o :: r, k => .op o (Prog.seqOps r k)
 
 /-- static value of a condition, if it has one in the model:
-    `self == nil` is false (the shared node exists); `isLazy()` is false (assumption A1: the value
-    `assign` stores into a concurrently readable node is never lazy - parseRaw sets
-    `noLazy = loadOnce = true`); a bool parameter has the value of the call's literal argument. -/
+    `self == nil` is false (the shared node exists); `isLazy()` is false (the value `assign` stores
+    into a concurrently readable node is never lazy: parseRaw sets `noLazy = loadOnce = true`, and
+    under these flags the parser builds no lazy node - a regenerated fact, see Model/RWParse.lean and
+    Props.C16.parser_builds_locked_raw_children_never_lazy); a bool parameter has the value of the
+    call's literal argument. -/
 def constCond (c : Cond) (param : Arg) : Option Bool :=
   match c with
   | .selfNil => some false
@@ -163,6 +169,7 @@ def flatReads (tbl : Table) : Nat → Arg → List Stmt → Option (List Op × B
       | .rd .l => cont [.readL] false
       | .rd .p => cont [.readP] false
       | .rd .m => cont [.readM] false
+      | .rd .c => cont [.readC] false
       | .rdAll | .valueRecv => cont [.readT, .readL, .readP, .readM] false
       | .call fn a | .callSet fn a =>
         match lookupFn tbl fn with
@@ -172,7 +179,7 @@ def flatReads (tbl : Table) : Nat → Arg → List Stmt → Option (List Op × B
           | none => none
         | none => none
       | .ret | .panic => some ([], true)
-      | .brk | .cont | .newRaw _ | .newLazy | .pset _ _ | .mkMutex | .callCopy _ => cont [] false
+      | .brk | .cont | .newRaw _ | .newLazy | .pset _ _ | .mkMutex | .callCopy _ | .gotoFwd | .label => cont [] false
       | _ => none
     | .ite c neg thn els =>
       match constCond c param with
@@ -220,6 +227,9 @@ def lower (tbl : Table) : Nat → Arg → List Stmt → Prog → Prog → Option
       | .rd .l => .op .readL kk
       | .rd .p => .op .readP kk
       | .rd .m => .op .readM kk
+      | .rd .c => .op .readC kk
+      | .wr .c => .op .writeC kk
+      | .parse => .op .writeC kk
       | .wr .l => .op .writeL kk
       | .wr .p => .op .writeP kk
       | .rdAll | .valueRecv => .op .readT (.op .readL (.op .readP (.op .readM kk)))
@@ -247,7 +257,7 @@ def lower (tbl : Table) : Nat → Arg → List Stmt → Prog → Prog → Option
       | .ret => retK
       | .panic => .done
       | .brk => match brkK with | some b => b | none => .abort
-      | .newRaw _ | .newLazy | .pset _ _ | .mkMutex => kk
+      | .newRaw _ | .newLazy | .pset _ _ | .mkMutex | .gotoFwd | .label => kk
       | _ => .abort
     | .ite c neg thn els =>
       match constCond c param with
@@ -322,7 +332,8 @@ structure Acc where
     of `t`; happens-before edges are acquired from them (Go memory model: `Lock` returns after the
     earlier `Unlock`s and `RUnlock`s, `RLock` after the earlier `Unlock`s, an atomic load observes
     the earlier atomic stores).
-    `wl/wp` are ghosts: inside the current conversion `l` / `p` has already been overwritten. -/
+    `wl/wp/wc` are ghosts: inside the current conversion `l` / `p` / memory behind `p` has already
+    been written. -/
 structure Sh where
   t : TV
   tg : Nat
@@ -333,6 +344,7 @@ structure Sh where
   r : List Nat        -- threads holding the read lock
   wl : Bool
   wp : Bool
+  wc : Bool
   hist : List Acc
   relW : List Nat
   relR : List Nat
@@ -358,7 +370,7 @@ structure State where
   deriving Repr, DecidableEq
 
 def Sh.init : Sh :=
-  { t := .raw, tg := 0, l := 0, p := 0, m := true, w := none, r := [], wl := false, wp := false,
+  { t := .raw, tg := 0, l := 0, p := 0, m := true, w := none, r := [], wl := false, wp := false, wc := false,
     hist := [], relW := [], relR := [], relT := [], race := false }
 
 def Th.init (p : Prog) (orc : List Bool) : Th :=
@@ -407,7 +419,7 @@ def execOp (i : Nat) (sh : Sh) (th : Th) (o : Op) (k : Prog) : Sh × Th :=
   | .storeT =>
     let a := mkAcc i .t true true sh
     let g := genOf th + 1
-    ({ sh.record th.hb a with t := .parsed, tg := g, wl := false, wp := false, relT := (a.id :: th.hb) ++ sh.relT },
+    ({ sh.record th.hb a with t := .parsed, tg := g, wl := false, wp := false, wc := false, relT := (a.id :: th.hb) ++ sh.relT },
      { th with prog := k, tv := some (.parsed, g), lg := none, pg := none, hb := a.id :: th.hb })
   | .readT =>
     let a := mkAcc i .t false false sh
@@ -427,6 +439,12 @@ def execOp (i : Nat) (sh : Sh) (th : Th) (o : Op) (k : Prog) : Sh × Th :=
   | .writeP =>
     let a := mkAcc i .p true false sh
     ({ sh.record th.hb a with p := genOf th + 1, wp := true }, { th with prog := k, hb := a.id :: th.hb })
+  | .readC =>
+    let a := mkAcc i .c false false sh
+    (sh.record th.hb a, { th with prog := k, hb := a.id :: th.hb })
+  | .writeC =>
+    let a := mkAcc i .c true false sh
+    ({ sh.record th.hb a with wc := true }, { th with prog := k, hb := a.id :: th.hb })
   | .writeAll =>
     let a1 := mkAcc i .t true false sh
     let sh1 := sh.record th.hb a1
@@ -520,40 +538,42 @@ structure Abs where
   lk : Bool        -- that load was made under a lock which is still held
   wl : Bool
   wp : Bool
+  wc : Bool
   mread : Bool     -- `mv` holds the value of m
   lv : Bool        -- `lock` variable is known to be true
   deriving DecidableEq, Repr
 
-def Abs.init : Abs := { hR := false, hW := false, k := .none, lk := false, wl := false, wp := false, mread := false, lv := false }
+def Abs.init : Abs := { hR := false, hW := false, k := .none, lk := false, wl := false, wp := false, wc := false, mread := false, lv := false }
 
 /-- plain reads of t/l/p are allowed after an atomic load that said "not raw" (acquire of the
     release-store in assign), or after one that said "raw" made under a lock that is still held -/
 def Abs.canRead (a : Abs) : Bool :=
-  (a.k == .nonraw || (a.k == .raw && a.lk)) && !a.wl && !a.wp
+  (a.k == .nonraw || (a.k == .raw && a.lk)) && !a.wl && !a.wp && !a.wc
 
 def Abs.canWrite (a : Abs) : Bool := a.k == .raw && a.lk && a.hW
 
 def absOp (a : Abs) (o : Op) : Option Abs :=
   match o with
   | .loadT =>
-    if a.wl || a.wp then none else
+    if a.wl || a.wp || a.wc then none else
     if a.k == .nonraw then some a else some { a with k := .unk, lk := a.hR || a.hW }
-  | .storeT => if a.canWrite && a.wl && a.wp then some { a with k := .nonraw, wl := false, wp := false } else none
-  | .readT | .readL | .readP => if a.canRead then some a else none
+  | .storeT => if a.canWrite && a.wl && a.wp then some { a with k := .nonraw, wl := false, wp := false, wc := false } else none
+  | .readT | .readL | .readP | .readC => if a.canRead then some a else none
+  | .writeC => if a.canWrite then some { a with wc := true } else none
   | .readM => some { a with mread := true }
   | .writeL => if a.canWrite && !a.wl then some { a with wl := true } else none
   | .writeP => if a.canWrite && !a.wp then some { a with wp := true } else none
   | .writeAll => none
   | .acqW => if !a.hR && !a.hW then some { a with hW := true } else none
   | .acqR => if !a.hR && !a.hW then some { a with hR := true } else none
-  | .relW => if a.hW && !a.wl && !a.wp then some { a with hW := false, lk := false } else none
+  | .relW => if a.hW && !a.wl && !a.wp && !a.wc then some { a with hW := false, lk := false } else none
   | .relR => if a.hR then some { a with hR := false, lk := false } else none
   | .setLockVar => some { a with lv := a.mread }
 
 /-- operations allowed in (flattened) loop bodies -/
 def isLoopOp (o : Op) : Bool :=
   match o with
-  | .loadT | .readT | .readL | .readP => true
+  | .loadT | .readT | .readL | .readP | .readC => true
   | _ => false
 
 /-- `safe pf a P`: every path of `P`, started in abstract state `a`, respects the discipline.
@@ -587,7 +607,7 @@ def safe (pf : Bool) : Abs → Prog → Bool
     | .parseErr => if pf then safe pf a x else safe pf a y
     | _ => safe pf a x && safe pf a y
   | a, .loop cur body k =>
-    a.k == .nonraw && !a.wl && !a.wp && cur.all isLoopOp && body.all isLoopOp && safe pf a k
+    a.k == .nonraw && !a.wl && !a.wp && !a.wc && cur.all isLoopOp && body.all isLoopOp && safe pf a k
 
 /-- a documented read operation (compiled from the regenerated facts) respects the discipline,
     for a text the parser accepts (`pf = false`) / rejects (`pf = true`) -/
